@@ -16,7 +16,7 @@ def sourceHashes : List (String × String) :=
   [("Interpreter.buildOk", "450a4faa8025a26d"),
    ("buildLineOk", "e9b789af4cf04266"),
    ("buildOptionOk", "fb608fcc7aa73dd7"),
-   ("buildTagOk", "7fdcd81c0339bc70"),
+   ("buildTagOk", "4f0d809c373ea57d"),
    ("goMinorVersion", "36f86cc7c4e77419"),
    ("contains", "fb8522e3b98e05f8"),
    ("skipFile", "2f8fb4545507447b"),
